@@ -9,6 +9,8 @@
 //	single.go  proposer x signature x public-key combinations
 //	pow.go     compact target codec, IsProofed, CheckMinerMatch over stub chains
 //	powhist.go CheckMinerMatch under every short call history of one instance
+//	xpoaset.go XPoA CheckMinerMatch across a validator-set change (sizes differ too)
+//	powfork.go PoW CheckMinerMatch for blocks on a side branch at a retarget height
 //
 // Oracles. TDPoS / XPoA: structural (triples non-decreasing, every cell has
 // block_num consecutive slots, every term all positions in order, nothing out
@@ -33,6 +35,16 @@
 // genesis, mining round just started) - the target is prescribed by the chain,
 // not by what the instance happened to do before. Panics of the constructor on
 // the restart path are evidence (pow.history.panic_observations), not verdicts.
+//
+// xpoa.setchange makes the validator set a function of the block's height: the
+// real editValidates kernel method writes a new set (same size, grown, shrunk)
+// into a block of a stub chain with per-block snapshots; candidates before / at
+// / after the activation height are judged by a node whose own mining set is
+// the old or the new one; accepted iff the proposer is the one the schedule of
+// the set in force for that height names. pow.fork puts a side branch with its
+// own timestamps beside the trunk: a candidate at a retarget height is judged
+// by the reference formula over ITS OWN ancestors, and its verdict must equal
+// the one of a node that has the candidate's chain as trunk.
 //
 // Nothing is sampled: every domain is an explicit finite list iterated in index
 // order; goroutines only partition the list.
